@@ -64,6 +64,7 @@ func c14(c *Ctx) {
 	c.checkDispatchTotality()
 	// R14.7: a rejected node is refused — no error test on the way is inverted (shared with C12's R12.7)
 	c.checkNoInvertedErrorTest("R14.7")
+	c.checkReaderErrors()
 	if ok, why := newDischarger(c).fanoutCheckedPositive(); ok {
 		r.OK("R14.6", "hamt/fanout-validated", "-", "the shard constructor's validator rejects every fanout that is not a positive power of two")
 	} else {
@@ -838,4 +839,70 @@ func (c *Ctx) unixfsFailureFacts(fn *ssa.Function, blk *ssa.BasicBlock, depth in
 		}
 	}
 	return facts
+}
+
+// checkReaderErrors implements R14.8: error discipline of the reader packages. Every error produced by a call made in a
+// hand-written reader-package function that itself has an error result reaches that result on every path (path-sensitive
+// propagation analysis shared with R12.1/D4) — a dropped check leaves the function working on zero values of a malformed
+// or unavailable node. The deliberate fall-backs of the tree are recognised by shape, not by name: an error is *replaced
+// by an alternative computation* when, on the path where it is non-nil or untested, the function returns the results of
+// another repository call with an error result (`return s.lengthFromLinks()`), or goes on to a later call whose error it
+// does return.
+func (c *Ctx) checkReaderErrors() {
+	r := c.R
+	r.Rule("R14.8", "reader-package error discipline: in every hand-written reader-package function with an error result, the error of each call reaches the function's error result on every path, or is replaced by an alternative whose own error is returned (fall-back); io.EOF compared explicitly counts as handled")
+	n := 0
+	for _, fn := range c.G.Funcs() {
+		rel, ok := c.P.PkgOf(fn)
+		if !ok || !core.ReaderPkgs[rel] || fn.Synthetic != "" || c.P.IsGenerated(fn.Pos()) || core.ErrResultIndex(fn.Signature) < 0 || len(fn.Blocks) == 0 {
+			continue
+		}
+		errIdx := core.ErrResultIndex(fn.Signature)
+		ord := map[string]int{}
+		for _, ci := range core.CallsIn(fn) {
+			call, ok := ci.(*ssa.Call)
+			if !ok || core.ErrResultIndex(call.Call.Signature()) < 0 {
+				continue
+			}
+			name := core.CalleeName(call)
+			ord[name]++
+			n++
+			key := fmt.Sprintf("%s/err:%s#%d", core.FuncName(fn), shorten(strings.ReplaceAll(name, core.Module+"/", "")), ord[name])
+			probs, _, complete := core.CheckErrPropagatedOpt(fn, call, true)
+			if !complete {
+				r.Undecided("R14.8", key, c.P.Pos(call.Pos()), "path enumeration exceeded its bound")
+				continue
+			}
+			var ss []string
+			for _, p := range probs {
+				// fall-back: the offending return forwards another call's (value, error) pair, or returns the error of a later call
+				fallback := false
+				for _, ret := range core.Returns(fn) {
+					// only an error that was looked at can be deliberately replaced
+					if !strings.Contains(p.What, "known to be non-nil") {
+						break
+					}
+					if ret.Pos() != p.Pos {
+						continue
+					}
+					ev := core.ResolvedResults(ret)[errIdx]
+					switch x := ev.(type) {
+					case *ssa.Extract:
+						if oc, ok := x.Tuple.(*ssa.Call); ok && oc != call && oc.Pos() > call.Pos() {
+							fallback = true
+						}
+					case *ssa.Call:
+						if x != call && x.Pos() > call.Pos() {
+							fallback = true
+						}
+					}
+				}
+				if !fallback {
+					ss = append(ss, fmt.Sprintf("%s [return at %s]", p.What, c.P.Pos(p.Pos)))
+				}
+			}
+			r.Check(len(ss) == 0, "R14.8", key, c.P.Pos(call.Pos()), "error propagated or replaced by a fall-back", "an error is dropped: "+uniqJoin(ss))
+		}
+	}
+	r.Floor("R14.8", n, 40)
 }
